@@ -150,7 +150,7 @@ def main(argv=None):
                 known_seen.setdefault(ent['id'], {'entry': ent, 'count': 0, 'example': v['args']})
                 known_seen[ent['id']]['count'] += 1
                 continue
-            sig = '%s|%s|%s' % (r['name'], v.get('label'), (v.get('detail') or {}).get('site'))
+            sig = '%s|%s|%s' % (r['name'], (v.get('label') or '').split(':')[0], (v.get('detail') or {}).get('site'))
             if sum(1 for x in new_viol if x['sig'] == sig) >= 3:
                 continue  # keep at most 3 replays per signature
             nrep += 1
